@@ -235,6 +235,11 @@ func c16Exec(x *Ctx) {
 					nf = src
 				}
 				exist := lstatPrefix(start, names)
+				if sfi, err := os.Lstat(start); err == nil && !sfi.IsDir() && len(names) > 0 {
+					// the start fid designates a file or a symbolic link (not followed): walking by name from a
+					// non-directory is refused by the protocol rules (C05), whatever the link points to
+					continue
+				}
 				rr := call(&Msg{Type: Twalk, Fid: src, Newfid: nf, Wname: names})
 				if rr == nil || rr.M == nil {
 					return
@@ -269,6 +274,13 @@ func c16Exec(x *Ctx) {
 								}
 							}
 							inodes[q.Path] = key
+						}
+					}
+				}
+				for i := range names {
+					if i < exist-1 || (i < exist && i < len(names)-1) {
+						if fi, err := os.Lstat(filepath.Join(append([]string{start}, names[:i+1]...)...)); err == nil && fi.Mode()&os.ModeSymlink != 0 && i < exist-1 {
+							x.Probe("walk-through-symlink-to-directory")
 						}
 					}
 				}
